@@ -101,6 +101,17 @@ func c17RunScenario(sc C17Scenario, root string) *C17Report {
 		ctx := p.Data.(*c17Ctx)
 		img := c17Image(ctx.goVersion)
 		builds++
+		// cmd/go takes an existing output for up to date when the build ID stored at its start carries the expected
+		// action ID; the rest of the file is not looked at (probed against the real go command by checks/c17.py).
+		if old, err := realos.ReadFile(out); err == nil {
+			if nl := bytes.IndexByte(img, '\n'); nl > 0 && bytes.HasPrefix(old, img[:nl+1]) {
+				sched.Yield("go build -o: existing output carries the expected build ID, left alone", nil)
+				if p.Dead {
+					return nil, realos.ErrClosed
+				}
+				return nil, nil
+			}
+		}
 		// cmd/go first probes the destination directory with a temporary file, then tries to rename the
 		// built binary into place; across file systems the rename fails (EXDEV) and it copies in place.
 		tmp := out + "-go-tmp-umask"
